@@ -13,8 +13,6 @@ package redis
 //@ func type session.IterateFn
 //@ params sess
 //@ modifies heap
-//@ func getSessionLocked trusted
-//@ modifies heap
 
 //@ func (*Store).Iterate
 //@ props C09
@@ -29,3 +27,53 @@ package redis
 //@ call Conn.Do#1 assert [C09] commandName == "SCAN" && len(args) == 3 && args[0].(type int) && args[0].(int) == iter && args[1].(type string) && args[1].(string) == "MATCH" && args[2].(type string) && args[2].(string) == "session:*"
 // the walk ends normally only at cursor 0, unless the callback stopped it
 //@ ensures [C09] result == nil ==> iter == 0 || !cont
+
+// The session record: one hash per client, session:<client id>, with the five fields client_id, will,
+// will_delay_interval, connected_at, expiry_interval. Set writes all five (the will in the message encoding) in one HSET;
+// getSessionLocked (Get, and Iterate at start-up) asks for exactly these five, in the order in which it scans the reply
+// into the session; Remove deletes exactly that hash; SetSessionExpiry (a v5 DISCONNECT that changes the expiry)
+// rewrites the one field.
+//@ func getKey inline
+//@ func encoding.EncodeMessage trusted
+//@ params msg, b
+//@ modifies ghost(b.$data), ghost(b.$w)
+//@ func (*bytes.Buffer).Bytes trusted pure
+//@ params b
+//@ func redis.Scan trusted
+//@ params src, dest
+//@ modifies heap
+//@ func encoding.DecodeMessageFromBytes trusted pure
+
+//@ func (*Store).Set
+//@ props C09
+//@ requires [C09] s != nil && s.pool != nil && session != nil
+//@ modifies heap, ghostall(redigo.Conn.$cmds), ghostall(redigo.Conn.$lastCmd), ghostall(redigo.Conn.$flushes), ghostall(redigo.Conn.$lastInt)
+//@ waive nil
+//@ call Conn.Do#1 assert [C09] commandName == "hset" && len(args) == 11 && args[0].(type string) && args[0].(string) == concat("session:", session.ClientID)
+//@ call Conn.Do#1 assert [C09] args[1].(type string) && args[1].(string) == "client_id" && args[2].(type string) && args[2].(string) == session.ClientID && args[3].(type string) && args[3].(string) == "will" && args[4].(type []byte)
+//@ call Conn.Do#1 assert [C09] args[5].(type string) && args[5].(string) == "will_delay_interval" && args[6].(type uint32) && args[6].(uint32) == session.WillDelayInterval && args[7].(type string) && args[7].(string) == "connected_at" && args[8].(type int64) && args[9].(type string) && args[9].(string) == "expiry_interval" && args[10].(type uint32) && args[10].(uint32) == session.ExpiryInterval
+//@ ensures [C09] called(Conn.Do#1) == 1
+
+//@ func getSessionLocked
+//@ props C09
+//@ requires [C09] c != nil
+//@ modifies heap, ghostall(redigo.Conn.$cmds), ghostall(redigo.Conn.$lastCmd), ghostall(redigo.Conn.$flushes), ghostall(redigo.Conn.$lastInt)
+//@ waive nil
+//@ call Conn.Do#1 assert [C09] commandName == "hmget" && len(args) == 6 && args[0].(type string) && args[0].(string) == key && args[1].(type string) && args[1].(string) == "client_id" && args[2].(type string) && args[2].(string) == "will" && args[3].(type string) && args[3].(string) == "will_delay_interval" && args[4].(type string) && args[4].(string) == "connected_at" && args[5].(type string) && args[5].(string) == "expiry_interval"
+//@ ensures [C09] result1 == nil ==> result0 != nil && isfresh(result0)
+//@ ensures [C09] (result0 == nil) == (result1 != nil)
+
+//@ func (*Store).Remove
+//@ props C09
+//@ requires [C09] s != nil && s.pool != nil
+//@ modifies heap, ghostall(redigo.Conn.$cmds), ghostall(redigo.Conn.$lastCmd), ghostall(redigo.Conn.$flushes), ghostall(redigo.Conn.$lastInt)
+//@ call Conn.Do#1 assert [C09] commandName == "del" && len(args) == 1 && args[0].(type string) && args[0].(string) == concat("session:", clientID)
+//@ ensures [C09] called(Conn.Do#1) == 1
+
+//@ func (*Store).SetSessionExpiry
+//@ props C09
+//@ requires [C09] s != nil && s.pool != nil
+//@ modifies heap, ghostall(redigo.Conn.$cmds), ghostall(redigo.Conn.$lastCmd), ghostall(redigo.Conn.$flushes), ghostall(redigo.Conn.$lastInt)
+//@ call Conn.Do#1 assert [C09] commandName == "hset" && len(args) == 3 && args[0].(type string) && args[0].(string) == concat("session:", clientID) && args[1].(type string) && args[1].(string) == "expiry_interval" && args[2].(type uint32) && args[2].(uint32) == expiry
+//@ ensures [C09] called(Conn.Do#1) == 1
+
